@@ -1043,7 +1043,8 @@ class WaveguideWriter(Writer):
 
     def __init__(self, wg_list: list[Waveguide | list[Waveguide]], **param) -> None:
         super().__init__(**param)
-        self.obj_list: list[Waveguide | list[Waveguide]] = wg_list
+        # a new list: append / extend must not write into the caller's list
+        self.obj_list: list[Waveguide | list[Waveguide]] = list(wg_list)
 
         self._param: dict[str, Any] = dict(**param)
         self._export_path = self.CWD / (self.export_dir or '')
@@ -1357,7 +1358,8 @@ class NasuWriter(Writer):
 
     def __init__(self, nw_list: list[NasuWaveguide], **param) -> None:
         super().__init__(**param)
-        self.obj_list: list[NasuWaveguide] = nw_list
+        # a new list: append / extend must not write into the caller's list
+        self.obj_list: list[NasuWaveguide] = list(nw_list)
 
         self._param: dict[str, Any] = dict(**param)
         self._export_path = self.CWD / (self.export_dir or '')
